@@ -1,0 +1,1141 @@
+//go:build verif
+
+package ast
+
+// Contracts, pure specification functions and lemma functions for package ast.
+// This file only exists under the build tag "verif". The //@ blocks are read by /verif/engine (govc);
+// the Go functions below (spec*) are the executable oracle: govc translates them to SMT definitions,
+// and the replay/bounded harnesses run them as compiled code.
+
+// ---------------------------------------------------------------------------------------------
+// SEMI E5 tables (written from the standard, not from interface.go)
+
+// specKnownType: the 14 item format names used inside the package.
+func specKnownType(typ string) bool {
+	return typ == "list" || typ == "binary" || typ == "boolean" || typ == "ascii" ||
+		typ == "i8" || typ == "i1" || typ == "i2" || typ == "i4" ||
+		typ == "f8" || typ == "f4" ||
+		typ == "u8" || typ == "u1" || typ == "u2" || typ == "u4"
+}
+
+// specWidth: bytes per element (a list counts elements, so its "width" is 1).
+func specWidth(typ string) int {
+	if typ == "i8" || typ == "f8" || typ == "u8" {
+		return 8
+	}
+	if typ == "i4" || typ == "f4" || typ == "u4" {
+		return 4
+	}
+	if typ == "i2" || typ == "u2" {
+		return 2
+	}
+	return 1
+}
+
+// specFormatCode: SEMI E5 item format codes (octal in the standard).
+func specFormatCode(typ string) int {
+	if typ == "list" {
+		return 0
+	}
+	if typ == "binary" {
+		return 8 // 0o10
+	}
+	if typ == "boolean" {
+		return 9 // 0o11
+	}
+	if typ == "ascii" {
+		return 16 // 0o20
+	}
+	if typ == "i8" {
+		return 24 // 0o30
+	}
+	if typ == "i1" {
+		return 25 // 0o31
+	}
+	if typ == "i2" {
+		return 26 // 0o32
+	}
+	if typ == "i4" {
+		return 28 // 0o34
+	}
+	if typ == "f8" {
+		return 32 // 0o40
+	}
+	if typ == "f4" {
+		return 36 // 0o44
+	}
+	if typ == "u8" {
+		return 40 // 0o50
+	}
+	if typ == "u1" {
+		return 41 // 0o51
+	}
+	if typ == "u2" {
+		return 42 // 0o52
+	}
+	if typ == "u4" {
+		return 44 // 0o54
+	}
+	return -1
+}
+
+// specMaxBytes: an item body holds at most 2^24-1 bytes.
+func specMaxBytes() int { return 16777215 }
+
+// specNLen: number of length bytes in the shortest form.
+func specNLen(n int) int {
+	if n <= 255 {
+		return 1
+	}
+	if n <= 65535 {
+		return 2
+	}
+	return 3
+}
+
+// specLenByte: k-th (0 = most significant) of the nl big-endian length bytes of n.
+func specLenByte(n int, nl int, k int) int {
+	if nl-1-k == 2 {
+		return (n / 65536) % 256
+	}
+	if nl-1-k == 1 {
+		return (n / 256) % 256
+	}
+	return n % 256
+}
+
+//@ func getDataByteLength
+//@   property C01 C02 C13
+//@   requires 0 <= size && size <= 1<<48
+//@   ensures  specKnownType(typ) ==> result == size * specWidth(typ)
+//@   ensures  !specKnownType(typ) ==> result == 0
+
+//@ func getHeaderBytes
+//@   property C01 C02 C13
+//@   requires specKnownType(typ) && 0 <= size && size <= 1<<48
+//@   let n  = size * specWidth(typ)
+//@   let nl = specNLen(n)
+//@   ensures n >  16777215 ==> err != nil && len(result) == 0
+//@   ensures n <= 16777215 ==> err == nil && len(result) == 1 + nl
+//@   ensures n <= 16777215 ==> result[0] == specFormatCode(typ)*4 + nl
+//@   ensures n <= 16777215 ==> forall k int :: 0 <= k && k < nl ==> result[1+k] == specLenByte(n, nl, k)
+//@   ensures fresh(result)
+
+// ---------------------------------------------------------------------------------------------
+// HSMS control messages (SEMI E37)
+
+// specSTypeName: the message type as a total function of (PType, SType).
+func specTypeOf(ptype int, stype int) string {
+	if ptype != 0 {
+		return "undefined"
+	}
+	if stype == 1 {
+		return "select.req"
+	}
+	if stype == 2 {
+		return "select.rsp"
+	}
+	if stype == 3 {
+		return "deselect.req"
+	}
+	if stype == 4 {
+		return "deselect.rsp"
+	}
+	if stype == 5 {
+		return "linktest.req"
+	}
+	if stype == 6 {
+		return "linktest.rsp"
+	}
+	if stype == 7 {
+		return "reject.req"
+	}
+	if stype == 9 {
+		return "separate.req"
+	}
+	return "undefined"
+}
+
+//@ type ControlMessage invariant len(self.header) == 10
+
+//@ iface HSMSMessage.Type
+//@   property C14
+//@   ensures typeis(recv, *ControlMessage) ==> result == specTypeOf(cast(recv, *ControlMessage).header[4], cast(recv, *ControlMessage).header[5])
+//@   ensures typeis(recv, *DataMessage) ==> result == "data message"
+
+//@ func (*ControlMessage).Type
+//@   property C14
+//@   ensures result == specTypeOf(msg.header[4], msg.header[5])
+
+//@ func (*ControlMessage).ToBytes
+//@   property C14 C11
+//@   ensures len(result) == 14 && fresh(result)
+//@   ensures result[0] == 0 && result[1] == 0 && result[2] == 0 && result[3] == 10
+//@   ensures forall k int :: 0 <= k && k < 10 ==> result[4+k] == msg.header[k]
+
+//@ func NewHSMSControlMessage
+//@   property C14 C11 C03
+//@   allocates_assumed 512
+//@   allocates_on_panic 512
+//@   requires len(header) <= 10
+//@   let h = cast(result, *ControlMessage).header
+//@   ensures typeis(result, *ControlMessage) && fresh(result) && fresh(h) && len(h) == 10
+//@   ensures forall k int :: 0 <= k && k < len(header) ==> h[k] == header[k]
+//@   ensures forall k int :: len(header) <= k && k < 10 ==> h[k] == 0
+//@   loop 1
+//@     invariant 0 <= rangeindex+1 && rangeindex+1 <= len(header)
+//@     invariant len(headerCopy) == 10 && fresh(headerCopy)
+//@     invariant forall k int :: 0 <= k && k <= rangeindex ==> headerCopy[k] == header[k]
+//@     invariant forall k int :: rangeindex < k && k < 10 ==> headerCopy[k] == 0
+
+//@ func NewHSMSMessageSelectReq
+//@   property C14
+//@   panics_iff len(systemBytes) < 4
+//@   let h = cast(result, *ControlMessage).header
+//@   ensures typeis(result, *ControlMessage) && fresh(result) && fresh(h) && len(h) == 10
+//@   ensures h[0] == sessionID / 256 && h[1] == sessionID % 256 && h[2] == 0 && h[3] == 0 && h[4] == 0 && h[5] == 1
+//@   ensures h[6] == systemBytes[0] && h[7] == systemBytes[1] && h[8] == systemBytes[2] && h[9] == systemBytes[3]
+
+//@ func NewHSMSMessageDeselectReq
+//@   property C14
+//@   panics_iff len(systemBytes) < 4
+//@   let h = cast(result, *ControlMessage).header
+//@   ensures typeis(result, *ControlMessage) && fresh(result) && fresh(h) && len(h) == 10
+//@   ensures h[0] == sessionID / 256 && h[1] == sessionID % 256 && h[2] == 0 && h[3] == 0 && h[4] == 0 && h[5] == 3
+//@   ensures h[6] == systemBytes[0] && h[7] == systemBytes[1] && h[8] == systemBytes[2] && h[9] == systemBytes[3]
+
+//@ func NewHSMSMessageSeparateReq
+//@   property C14
+//@   panics_iff len(systemBytes) < 4
+//@   let h = cast(result, *ControlMessage).header
+//@   ensures typeis(result, *ControlMessage) && fresh(result) && fresh(h) && len(h) == 10
+//@   ensures h[0] == sessionID / 256 && h[1] == sessionID % 256 && h[2] == 0 && h[3] == 0 && h[4] == 0 && h[5] == 9
+//@   ensures h[6] == systemBytes[0] && h[7] == systemBytes[1] && h[8] == systemBytes[2] && h[9] == systemBytes[3]
+
+//@ func NewHSMSMessageLinktestReq
+//@   property C14
+//@   panics_iff len(systemBytes) < 4
+//@   let h = cast(result, *ControlMessage).header
+//@   ensures typeis(result, *ControlMessage) && fresh(result) && fresh(h) && len(h) == 10
+//@   ensures h[0] == 255 && h[1] == 255 && h[2] == 0 && h[3] == 0 && h[4] == 0 && h[5] == 5
+//@   ensures h[6] == systemBytes[0] && h[7] == systemBytes[1] && h[8] == systemBytes[2] && h[9] == systemBytes[3]
+
+//@ func NewHSMSMessageRejectReq
+//@   property C14
+//@   panics_iff len(systemBytes) < 4
+//@   let h = cast(result, *ControlMessage).header
+//@   ensures typeis(result, *ControlMessage) && fresh(result) && fresh(h) && len(h) == 10
+//@   ensures h[0] == sessionID / 256 && h[1] == sessionID % 256 && h[3] == reasonCode && h[4] == 0 && h[5] == 7
+//@   ensures reasonCode == 2 ==> h[2] == pType
+//@   ensures reasonCode != 2 ==> h[2] == sType
+//@   ensures h[6] == systemBytes[0] && h[7] == systemBytes[1] && h[8] == systemBytes[2] && h[9] == systemBytes[3]
+
+//@ func NewHSMSMessageSelectRsp
+//@   property C14
+//@   let q = cast(selectReq, *ControlMessage).header
+//@   panics_iff !(typeis(selectReq, *ControlMessage) && specTypeOf(q[4], q[5]) == "select.req")
+//@   let h = cast(result, *ControlMessage).header
+//@   ensures typeis(result, *ControlMessage) && fresh(result) && fresh(h) && len(h) == 10
+//@   ensures h[0] == q[0] && h[1] == q[1] && h[2] == 0 && h[3] == selectStatus && h[4] == 0 && h[5] == 2
+//@   ensures h[6] == q[6] && h[7] == q[7] && h[8] == q[8] && h[9] == q[9]
+
+//@ func NewHSMSMessageDeselectRsp
+//@   property C14
+//@   let q = cast(deselectReq, *ControlMessage).header
+//@   panics_iff !(typeis(deselectReq, *ControlMessage) && specTypeOf(q[4], q[5]) == "deselect.req")
+//@   let h = cast(result, *ControlMessage).header
+//@   ensures typeis(result, *ControlMessage) && fresh(result) && fresh(h) && len(h) == 10
+//@   ensures h[0] == q[0] && h[1] == q[1] && h[2] == 0 && h[3] == deselectStatus && h[4] == 0 && h[5] == 4
+//@   ensures h[6] == q[6] && h[7] == q[7] && h[8] == q[8] && h[9] == q[9]
+
+//@ func NewHSMSMessageLinktestRsp
+//@   property C14
+//@   let q = cast(linktestReq, *ControlMessage).header
+//@   panics_iff !(typeis(linktestReq, *ControlMessage) && specTypeOf(q[4], q[5]) == "linktest.req")
+//@   let h = cast(result, *ControlMessage).header
+//@   ensures typeis(result, *ControlMessage) && fresh(result) && fresh(h) && len(h) == 10
+//@   ensures h[0] == 255 && h[1] == 255 && h[2] == 0 && h[3] == 0 && h[4] == 0 && h[5] == 6
+//@   ensures h[6] == q[6] && h[7] == q[7] && h[8] == q[8] && h[9] == q[9]
+
+// ---------------------------------------------------------------------------------------------
+// DataMessage (ast.go)
+
+func specValidDirection(d string) bool {
+	return d == "H->E" || d == "H<-E" || d == "H<->E"
+}
+
+// specMsgFieldsOK: the rep invariant of DataMessage except for the message name.
+func specMsgFieldsOK(stream int, function int, waitBit int, sessionID int, nSystemBytes int, direction string) bool {
+	return 0 <= stream && stream < 128 && 0 <= function && function < 256 &&
+		0 <= waitBit && waitBit <= 2 && !(waitBit == 1 && function%2 == 0) &&
+		-1 <= sessionID && sessionID < 65536 && nSystemBytes == 4 && specValidDirection(direction)
+}
+
+//@ type DataMessage invariant specMsgFieldsOK(self.stream, self.function, self.waitBit, self.sessionID, len(self.systemBytes), self.direction)
+//@   invariant !has_space_rune(self.name)
+
+//@ func (*DataMessage).checkRep
+//@   establishes
+//@   property C12 C18 C06
+//@   panics_iff has_space_rune(node.name) || !specMsgFieldsOK(node.stream, node.function, node.waitBit, node.sessionID, len(node.systemBytes), node.direction)
+//@   loop 1
+//@     invariant 0 <= iterpos && rune_start(node.name, iterpos)
+//@     invariant forall p int :: 0 <= p && p < iterpos && rune_start(node.name, p) ==> !is_space(rune_at(node.name, p))
+
+//@ func NewDataMessage
+//@   property C12 C06
+//@   panics_iff has_space_rune(name) || !specMsgFieldsOK(stream, function, waitBit, -1, 4, direction)
+//@   ensures fresh(result) && result.name == name && result.stream == stream && result.function == function
+//@   ensures result.waitBit == waitBit && result.direction == direction && result.dataItem == dataItem && result.sessionID == -1
+//@   ensures len(result.systemBytes) == 4 && fresh(result.systemBytes)
+//@   ensures forall k int :: 0 <= k && k < 4 ==> result.systemBytes[k] == 0
+
+//@ func (*DataMessage).SetWaitBit
+//@   property C18 C11 C12
+//@   panics_iff node.waitBit == 2 && waitBit && node.function % 2 == 0
+//@   ensures node.waitBit != 2 ==> result == node
+//@   ensures node.waitBit == 2 ==> fresh(result) && result.waitBit == ite(waitBit, 1, 0)
+//@   ensures node.waitBit == 2 ==> result.name == node.name && result.stream == node.stream && result.function == node.function
+//@   ensures node.waitBit == 2 ==> result.direction == node.direction && result.dataItem == node.dataItem
+//@   ensures node.waitBit == 2 ==> result.sessionID == node.sessionID && result.systemBytes == node.systemBytes
+
+//@ func (*DataMessage).SetSessionIDAndSystemBytes
+//@   property C18 C11 C12
+//@   panics_iff !(-1 <= sessionID && sessionID < 65536)
+//@   ensures fresh(result) && result.sessionID == sessionID
+//@   ensures fresh(result.systemBytes) && len(result.systemBytes) == 4
+//@   ensures forall k int :: 0 <= k && k < 4 && k < len(systemBytes) ==> result.systemBytes[k] == systemBytes[k]
+//@   ensures forall k int :: 0 <= k && k < 4 && k >= len(systemBytes) ==> result.systemBytes[k] == 0
+//@   ensures result.name == node.name && result.stream == node.stream && result.function == node.function
+//@   ensures result.waitBit == node.waitBit && result.direction == node.direction && result.dataItem == node.dataItem
+//@   loop 1
+//@     invariant 0 <= rangeindex+1 && rangeindex+1 <= len(systemBytes) && rangeindex+1 <= 4
+//@     invariant len(systemBytesCopy) == 4 && fresh(systemBytesCopy)
+//@     invariant forall k int :: 0 <= k && k <= rangeindex ==> systemBytesCopy[k] == systemBytes[k]
+//@     invariant forall k int :: rangeindex < k && k < 4 ==> systemBytesCopy[k] == 0
+
+//@ func (*DataMessage).SystemBytes
+//@   property C11 C17
+//@   ensures len(result) == 4 && fresh(result)
+//@   ensures forall k int :: 0 <= k && k < 4 ==> result[k] == node.systemBytes[k]
+
+// ---------------------------------------------------------------------------------------------
+// Item nodes: shared spec functions
+
+// specVarNamePattern: the documented grammar of variable names (interface.go doc comment).
+func specVarNamePattern() string { return `^[A-Za-z_]\w*(\[\d+\])*$` }
+
+// specEllipsisPattern: "..." optionally followed by [n].
+func specEllipsisPattern() string { return `^\.{3}(\[\d+\])?$` }
+
+// Assumed facts about the regular expressions (the regexp engine itself is not modelled).
+//@ axiom forall s string :: re_match(specVarNamePattern(), s) ==> len(s) >= 1 && (s[0] == '_' || ('A' <= s[0] && s[0] <= 'Z') || ('a' <= s[0] && s[0] <= 'z'))
+//@ axiom forall s string :: re_match(specEllipsisPattern(), s) ==> len(s) >= 3 && s[0] == '.' && s[1] == '.' && s[2] == '.'
+
+func specIsIntW(w int) bool { return w == 1 || w == 2 || w == 4 || w == 8 }
+
+func specIntType(w int) string {
+	if w == 1 {
+		return "i1"
+	}
+	if w == 2 {
+		return "i2"
+	}
+	if w == 4 {
+		return "i4"
+	}
+	return "i8"
+}
+
+func specUintType(w int) string {
+	if w == 1 {
+		return "u1"
+	}
+	if w == 2 {
+		return "u2"
+	}
+	if w == 4 {
+		return "u4"
+	}
+	return "u8"
+}
+
+// specInRangeI: v is representable as a w-byte two's complement integer (v is a mathematical integer).
+func specInRangeI(w int, v int) bool {
+	if w == 1 {
+		return -128 <= v && v <= 127
+	}
+	if w == 2 {
+		return -32768 <= v && v <= 32767
+	}
+	if w == 4 {
+		return -2147483648 <= v && v <= 2147483647
+	}
+	return -9223372036854775808 <= v && v <= 9223372036854775807
+}
+
+// specInRangeU: v is representable as a w-byte unsigned integer (v is a mathematical integer).
+func specInRangeU(w int, v uint64) bool {
+	if w == 1 {
+		return v <= 255
+	}
+	if w == 2 {
+		return v <= 65535
+	}
+	if w == 4 {
+		return v <= 4294967295
+	}
+	return v <= 18446744073709551615
+}
+
+// specBEByte: byte j (0 = most significant) of the w-byte big-endian two's complement encoding of v.
+func specBEByte(w int, v int, j int) int {
+	return int((uint64(v) >> ((w - 1 - j) * 8)) & 255)
+}
+
+//@ type IntNode invariant specIsIntW(self.byteSize) && len(self.values)*self.byteSize <= 16777215
+//@   invariant forall i int :: 0 <= i && i < len(self.values) ==> specInRangeI(self.byteSize, self.values[i])
+
+//@ func (*IntNode).ToBytes
+//@   property C02 C16 C01 C13
+//@   split node.byteSize in 1, 2, 4, 8
+//@   let w = node.byteSize
+//@   let n = len(node.values)
+//@   let h = 1 + specNLen(n*w)
+//@   ensures fresh(result)
+//@   ensures len(node.variables) != 0 ==> len(result) == 0
+//@   ensures len(node.variables) == 0 ==> len(result) == h + n*w
+//@   ensures len(node.variables) == 0 ==> result[0] == specFormatCode(specIntType(w))*4 + specNLen(n*w)
+//@   ensures len(node.variables) == 0 ==> forall k int :: 0 <= k && k < h-1 ==> result[1+k] == specLenByte(n*w, h-1, k)
+//@   ensures len(node.variables) == 0 ==> forall p int :: 0 <= p && p < n*w ==> result[h+p] == specBEByte(w, node.values[p/w], p%w)
+//@   loop 1
+//@     invariant 0 <= rangeindex+1 && rangeindex+1 <= n
+//@     invariant fresh(result) && len(result) == h + (rangeindex+1)*w
+//@     invariant result[0] == specFormatCode(specIntType(w))*4 + specNLen(n*w)
+//@     invariant forall k int :: 0 <= k && k < h-1 ==> result[1+k] == specLenByte(n*w, h-1, k)
+//@     invariant forall p int :: 0 <= p && p < (rangeindex+1)*w ==> result[h+p] == specBEByte(w, node.values[p/w], p%w)
+//@   loop 2
+//@     invariant -1 <= i && i < w && 0 <= rangeindex+1 && rangeindex+1 < n
+//@     invariant fresh(result) && len(result) == h + (rangeindex+1)*w + (w-1-i)
+//@     invariant result[0] == specFormatCode(specIntType(w))*4 + specNLen(n*w)
+//@     invariant forall k int :: 0 <= k && k < h-1 ==> result[1+k] == specLenByte(n*w, h-1, k)
+//@     invariant forall p int :: 0 <= p && p < (rangeindex+1)*w ==> result[h+p] == specBEByte(w, node.values[p/w], p%w)
+//@     invariant forall j int :: 0 <= j && j < w-1-i ==> result[h+(rangeindex+1)*w+j] == specBEByte(w, value, j)
+
+// specBEByteU: byte j (0 = most significant) of the w-byte big-endian encoding of the unsigned value v.
+func specBEByteU(w int, v uint64, j int) int {
+	return int((v >> ((w - 1 - j) * 8)) & 255)
+}
+
+func specIsFloatW(w int) bool { return w == 4 || w == 8 }
+
+func specFloatType(w int) string {
+	if w == 4 {
+		return "f4"
+	}
+	return "f8"
+}
+
+func specBoolByte(b bool) int {
+	if b {
+		return 1
+	}
+	return 0
+}
+
+//@ type UintNode invariant specIsIntW(self.byteSize) && len(self.values)*self.byteSize <= 16777215
+//@   invariant forall i int :: 0 <= i && i < len(self.values) ==> specInRangeU(self.byteSize, self.values[i])
+
+//@ func (*UintNode).ToBytes
+//@   property C02 C16 C01 C13
+//@   split node.byteSize in 1, 2, 4, 8
+//@   let w = node.byteSize
+//@   let n = len(node.values)
+//@   let h = 1 + specNLen(n*w)
+//@   ensures fresh(result)
+//@   ensures len(node.variables) != 0 ==> len(result) == 0
+//@   ensures len(node.variables) == 0 ==> len(result) == h + n*w
+//@   ensures len(node.variables) == 0 ==> result[0] == specFormatCode(specUintType(w))*4 + specNLen(n*w)
+//@   ensures len(node.variables) == 0 ==> forall k int :: 0 <= k && k < h-1 ==> result[1+k] == specLenByte(n*w, h-1, k)
+//@   ensures len(node.variables) == 0 ==> forall p int :: 0 <= p && p < n*w ==> result[h+p] == specBEByteU(w, node.values[p/w], p%w)
+//@   loop 1
+//@     invariant 0 <= rangeindex+1 && rangeindex+1 <= n
+//@     invariant fresh(result) && len(result) == h + (rangeindex+1)*w
+//@     invariant result[0] == specFormatCode(specUintType(w))*4 + specNLen(n*w)
+//@     invariant forall k int :: 0 <= k && k < h-1 ==> result[1+k] == specLenByte(n*w, h-1, k)
+//@     invariant forall p int :: 0 <= p && p < (rangeindex+1)*w ==> result[h+p] == specBEByteU(w, node.values[p/w], p%w)
+//@   loop 2
+//@     invariant -1 <= i && i < w && 0 <= rangeindex+1 && rangeindex+1 < n
+//@     invariant fresh(result) && len(result) == h + (rangeindex+1)*w + (w-1-i)
+//@     invariant result[0] == specFormatCode(specUintType(w))*4 + specNLen(n*w)
+//@     invariant forall k int :: 0 <= k && k < h-1 ==> result[1+k] == specLenByte(n*w, h-1, k)
+//@     invariant forall p int :: 0 <= p && p < (rangeindex+1)*w ==> result[h+p] == specBEByteU(w, node.values[p/w], p%w)
+//@     invariant forall j int :: 0 <= j && j < w-1-i ==> result[h+(rangeindex+1)*w+j] == specBEByteU(w, value, j)
+
+//@ type BinaryNode invariant len(self.values) <= 16777215
+//@   invariant forall i int :: 0 <= i && i < len(self.values) ==> 0 <= self.values[i] && self.values[i] < 256
+
+//@ func (*BinaryNode).ToBytes
+//@   property C02 C16 C01 C13
+//@   let n = len(node.values)
+//@   let h = 1 + specNLen(n)
+//@   ensures fresh(result)
+//@   ensures len(node.variables) != 0 ==> len(result) == 0
+//@   ensures len(node.variables) == 0 ==> len(result) == h + n
+//@   ensures len(node.variables) == 0 ==> result[0] == specFormatCode("binary")*4 + specNLen(n)
+//@   ensures len(node.variables) == 0 ==> forall k int :: 0 <= k && k < h-1 ==> result[1+k] == specLenByte(n, h-1, k)
+//@   ensures len(node.variables) == 0 ==> forall p int :: 0 <= p && p < n ==> result[h+p] == node.values[p]
+//@   loop 1
+//@     invariant 0 <= rangeindex+1 && rangeindex+1 <= n
+//@     invariant fresh(result) && len(result) == h + (rangeindex+1)
+//@     invariant result[0] == specFormatCode("binary")*4 + specNLen(n)
+//@     invariant forall k int :: 0 <= k && k < h-1 ==> result[1+k] == specLenByte(n, h-1, k)
+//@     invariant forall p int :: 0 <= p && p <= rangeindex ==> result[h+p] == node.values[p]
+
+//@ type BooleanNode invariant len(self.values) <= 16777215
+
+//@ func (*BooleanNode).ToBytes
+//@   property C02 C16 C01 C13
+//@   let n = len(node.values)
+//@   let h = 1 + specNLen(n)
+//@   ensures fresh(result)
+//@   ensures len(node.variables) != 0 ==> len(result) == 0
+//@   ensures len(node.variables) == 0 ==> len(result) == h + n
+//@   ensures len(node.variables) == 0 ==> result[0] == specFormatCode("boolean")*4 + specNLen(n)
+//@   ensures len(node.variables) == 0 ==> forall k int :: 0 <= k && k < h-1 ==> result[1+k] == specLenByte(n, h-1, k)
+//@   ensures len(node.variables) == 0 ==> forall p int :: 0 <= p && p < n ==> result[h+p] == specBoolByte(node.values[p])
+//@   loop 1
+//@     invariant 0 <= rangeindex+1 && rangeindex+1 <= n
+//@     invariant fresh(result) && len(result) == h + (rangeindex+1)
+//@     invariant result[0] == specFormatCode("boolean")*4 + specNLen(n)
+//@     invariant forall k int :: 0 <= k && k < h-1 ==> result[1+k] == specLenByte(n, h-1, k)
+//@     invariant forall p int :: 0 <= p && p <= rangeindex ==> result[h+p] == specBoolByte(node.values[p])
+
+//@ type ASCIINode invariant len(self.value) <= 16777215
+//@   invariant forall i int :: 0 <= i && i < len(self.value) ==> self.value[i] < 128
+//@   invariant self.isValue ==> self.variable.name == "" && self.variable.minLength == 0 && self.variable.maxLength == 0
+//@   invariant !self.isValue ==> self.value == "" && re_match(specVarNamePattern(), self.variable.name)
+//@   invariant !self.isValue ==> self.variable.minLength >= 0 && self.variable.maxLength >= -1
+//@   invariant !self.isValue && self.variable.maxLength != -1 ==> self.variable.minLength <= self.variable.maxLength
+
+//@ func (*ASCIINode).ToBytes
+//@   property C02 C16 C01 C13
+//@   let n = len(node.value)
+//@   let h = 1 + specNLen(n)
+//@   ensures fresh(result)
+//@   ensures !node.isValue ==> len(result) == 0
+//@   ensures node.isValue ==> len(result) == h + n
+//@   ensures node.isValue ==> result[0] == specFormatCode("ascii")*4 + specNLen(n)
+//@   ensures node.isValue ==> forall k int :: 0 <= k && k < h-1 ==> result[1+k] == specLenByte(n, h-1, k)
+//@   ensures node.isValue ==> forall p int :: 0 <= p && p < n ==> result[h+p] == node.value[p]
+//@   loop 1
+//@     invariant 0 <= iterpos && iterpos <= n
+//@     invariant fresh(result) && len(result) == h + iterpos
+//@     invariant result[0] == specFormatCode("ascii")*4 + specNLen(n)
+//@     invariant forall k int :: 0 <= k && k < h-1 ==> result[1+k] == specLenByte(n, h-1, k)
+//@     invariant forall p int :: 0 <= p && p < iterpos ==> result[h+p] == node.value[p]
+
+//@ type FloatNode invariant specIsFloatW(self.byteSize) && len(self.values)*self.byteSize <= 16777215
+
+//@ func (*FloatNode).ToBytes
+//@   property C02 C16 C01 C13
+//@   split node.byteSize in 4, 8
+//@   let w = node.byteSize
+//@   let n = len(node.values)
+//@   let h = 1 + specNLen(n*w)
+//@   ensures fresh(result)
+//@   ensures len(node.variables) != 0 ==> len(result) == 0
+//@   ensures len(node.variables) == 0 ==> len(result) == h + n*w
+//@   ensures len(node.variables) == 0 ==> result[0] == specFormatCode(specFloatType(w))*4 + specNLen(n*w)
+//@   ensures len(node.variables) == 0 ==> forall k int :: 0 <= k && k < h-1 ==> result[1+k] == specLenByte(n*w, h-1, k)
+//@   ensures len(node.variables) == 0 && w == 4 ==> forall p int :: 0 <= p && p < n*4 ==> result[h+p] == specBEByteU(4, f32bits(float32(node.values[p/4])), p%4)
+//@   ensures len(node.variables) == 0 && w == 8 ==> forall p int :: 0 <= p && p < n*8 ==> result[h+p] == specBEByteU(8, f64bits(node.values[p/8]), p%8)
+//@   loop 1
+//@     invariant w == 4 && 0 <= rangeindex+1 && rangeindex+1 <= n
+//@     invariant fresh(result) && len(result) == h + (rangeindex+1)*4
+//@     invariant result[0] == specFormatCode(specFloatType(w))*4 + specNLen(n*w)
+//@     invariant forall k int :: 0 <= k && k < h-1 ==> result[1+k] == specLenByte(n*w, h-1, k)
+//@     invariant forall p int :: 0 <= p && p < (rangeindex+1)*4 ==> result[h+p] == specBEByteU(4, f32bits(float32(node.values[p/4])), p%4)
+//@   loop 2
+//@     invariant w == 8 && 0 <= rangeindex+1 && rangeindex+1 <= n
+//@     invariant fresh(result) && len(result) == h + (rangeindex+1)*8
+//@     invariant result[0] == specFormatCode(specFloatType(w))*4 + specNLen(n*w)
+//@     invariant forall k int :: 0 <= k && k < h-1 ==> result[1+k] == specLenByte(n*w, h-1, k)
+//@     invariant forall p int :: 0 <= p && p < (rangeindex+1)*8 ==> result[h+p] == specBEByteU(8, f64bits(node.values[p/8]), p%8)
+
+// ---------------------------------------------------------------------------------------------
+// IntNode factory and rep check
+
+//@ type IntNode invariant forall s string :: has(self.variables, s) ==> 0 <= self.variables[s] && self.variables[s] < len(self.values) && self.values[self.variables[s]] == 0 && re_match(specVarNamePattern(), s)
+//@   invariant forall s string, t string :: has(self.variables, s) && has(self.variables, t) && s != t ==> self.variables[s] != self.variables[t]
+
+//@ func (*IntNode).checkRep
+//@   establishes
+//@   property C12 C13
+//@   let okW = specIsIntW(node.byteSize)
+//@   panics_if !okW
+//@   panics_if okW && (exists i int :: 0 <= i && i < len(node.values) && !specInRangeI(node.byteSize, node.values[i]))
+//@   panics_only_if !okW || (exists s string :: has(node.variables, s)) || (exists i int :: 0 <= i && i < len(node.values) && !specInRangeI(node.byteSize, node.values[i]))
+//@   ensures forall i int :: 0 <= i && i < len(node.values) ==> specInRangeI(node.byteSize, node.values[i])
+//@   ensures forall s string :: has(node.variables, s) ==> 0 <= node.variables[s] && node.variables[s] < len(node.values) && node.values[node.variables[s]] == 0 && re_match(specVarNamePattern(), s)
+//@   ensures forall s string, t string :: has(node.variables, s) && has(node.variables, t) && s != t ==> node.variables[s] != node.variables[t]
+//@   loop 1
+//@     invariant okW && 0 <= rangeindex+1 && rangeindex+1 <= len(node.values)
+//@     invariant forall k int :: 0 <= k && k <= rangeindex ==> specInRangeI(node.byteSize, node.values[k])
+//@   loop 2
+//@     invariant okW && forall k int :: 0 <= k && k < len(node.values) ==> specInRangeI(node.byteSize, node.values[k])
+//@     invariant forall s string :: has(itervisited, s) ==> has(node.variables, s) && 0 <= node.variables[s] && node.variables[s] < len(node.values) && node.values[node.variables[s]] == 0 && re_match(specVarNamePattern(), s) && has(visited, node.variables[s])
+//@     invariant forall s string, t string :: has(itervisited, s) && has(itervisited, t) && s != t ==> node.variables[s] != node.variables[t]
+//@     invariant fresh(visited)
+
+//@ func NewIntNode
+//@   property C01 C12 C13 C09
+//@   allocates_assumed 32*len(values) + 512
+//@   allocates_on_panic 32*len(values) + 512
+//@   let okW = specIsIntW(byteSize)
+//@   let r = cast(result, *IntNode)
+//@   panics_if !okW
+//@   panics_if okW && len(values)*byteSize > 16777215
+//@   panics_if exists i int :: 0 <= i && i < len(values) && !isint(values[i]) && !typeis(values[i], string)
+//@   panics_if okW && (exists i int :: 0 <= i && i < len(values) && isint(values[i]) && !specInRangeI(byteSize, ival(values[i])))
+//@   panics_only_if !okW || len(values)*byteSize > 16777215 || (exists i int :: 0 <= i && i < len(values) && !(isint(values[i]) && specInRangeI(byteSize, ival(values[i]))))
+//@   ensures typeis(result, *IntNode) && fresh(result) && r.byteSize == byteSize && len(r.values) == len(values)
+//@   ensures forall i int :: 0 <= i && i < len(values) ==> (isint(values[i]) && r.values[i] == ival(values[i])) || (typeis(values[i], string) && r.values[i] == 0 && has(r.variables, sval(values[i])) && r.variables[sval(values[i])] == i)
+//@   ensures forall s string :: has(r.variables, s) ==> 0 <= r.variables[s] && r.variables[s] < len(values) && typeis(values[r.variables[s]], string) && sval(values[r.variables[s]]) == s
+//@   ensures (forall i int :: 0 <= i && i < len(values) ==> !typeis(values[i], string)) ==> len(r.variables) == 0
+//@   loop 1
+//@     invariant 0 <= rangeindex+1 && rangeindex+1 <= len(values) && len(nodeValues) == rangeindex+1 && fresh(nodeValues) && fresh(nodeVariables)
+//@     invariant forall k int :: 0 <= k && k <= rangeindex ==> (isint(values[k]) && nodeValues[k] == ival(values[k])) || (typeis(values[k], string) && nodeValues[k] == 0 && has(nodeVariables, sval(values[k])) && nodeVariables[sval(values[k])] == k)
+//@     invariant forall s string :: has(nodeVariables, s) ==> 0 <= nodeVariables[s] && nodeVariables[s] <= rangeindex && typeis(values[nodeVariables[s]], string) && sval(values[nodeVariables[s]]) == s
+//@     invariant (forall k int :: 0 <= k && k <= rangeindex ==> !typeis(values[k], string)) ==> len(nodeVariables) == 0
+
+// ---------------------------------------------------------------------------------------------
+// UintNode factory and rep check
+
+//@ type UintNode invariant forall s string :: has(self.variables, s) ==> 0 <= self.variables[s] && self.variables[s] < len(self.values) && self.values[self.variables[s]] == 0 && re_match(specVarNamePattern(), s)
+//@   invariant forall s string, t string :: has(self.variables, s) && has(self.variables, t) && s != t ==> self.variables[s] != self.variables[t]
+
+//@ func (*UintNode).checkRep
+//@   establishes
+//@   property C12 C13
+//@   let okW = specIsIntW(node.byteSize)
+//@   panics_if !okW
+//@   panics_if okW && (exists i int :: 0 <= i && i < len(node.values) && !specInRangeU(node.byteSize, node.values[i]))
+//@   panics_only_if !okW || (exists s string :: has(node.variables, s)) || (exists i int :: 0 <= i && i < len(node.values) && !specInRangeU(node.byteSize, node.values[i]))
+//@   ensures forall i int :: 0 <= i && i < len(node.values) ==> specInRangeU(node.byteSize, node.values[i])
+//@   ensures forall s string :: has(node.variables, s) ==> 0 <= node.variables[s] && node.variables[s] < len(node.values) && node.values[node.variables[s]] == 0 && re_match(specVarNamePattern(), s)
+//@   ensures forall s string, t string :: has(node.variables, s) && has(node.variables, t) && s != t ==> node.variables[s] != node.variables[t]
+//@   loop 1
+//@     invariant okW && 0 <= rangeindex+1 && rangeindex+1 <= len(node.values)
+//@     invariant forall k int :: 0 <= k && k <= rangeindex ==> specInRangeU(node.byteSize, node.values[k])
+//@   loop 2
+//@     invariant okW && forall k int :: 0 <= k && k < len(node.values) ==> specInRangeU(node.byteSize, node.values[k])
+//@     invariant forall s string :: has(itervisited, s) ==> has(node.variables, s) && 0 <= node.variables[s] && node.variables[s] < len(node.values) && node.values[node.variables[s]] == 0 && re_match(specVarNamePattern(), s) && has(visited, node.variables[s])
+//@     invariant forall s string, t string :: has(itervisited, s) && has(itervisited, t) && s != t ==> node.variables[s] != node.variables[t]
+//@     invariant fresh(visited)
+
+//@ func NewUintNode
+//@   property C01 C12 C13 C09
+//@   allocates_assumed 32*len(values) + 512
+//@   allocates_on_panic 32*len(values) + 512
+//@   let okW = specIsIntW(byteSize)
+//@   let r = cast(result, *UintNode)
+//@   panics_if !okW
+//@   panics_if okW && len(values)*byteSize > 16777215
+//@   panics_if exists i int :: 0 <= i && i < len(values) && !isint(values[i]) && !typeis(values[i], string)
+//@   panics_if okW && (exists i int :: 0 <= i && i < len(values) && isint(values[i]) && !(0 <= ival(values[i]) && specInRangeU(byteSize, ival(values[i]))))
+//@   panics_only_if !okW || len(values)*byteSize > 16777215 || (exists i int :: 0 <= i && i < len(values) && !(isint(values[i]) && 0 <= ival(values[i]) && specInRangeU(byteSize, ival(values[i]))))
+//@   ensures typeis(result, *UintNode) && fresh(result) && r.byteSize == byteSize && len(r.values) == len(values)
+//@   ensures forall i int :: 0 <= i && i < len(values) ==> (isint(values[i]) && r.values[i] == ival(values[i])) || (typeis(values[i], string) && r.values[i] == 0 && has(r.variables, sval(values[i])) && r.variables[sval(values[i])] == i)
+//@   ensures forall s string :: has(r.variables, s) ==> 0 <= r.variables[s] && r.variables[s] < len(values) && typeis(values[r.variables[s]], string) && sval(values[r.variables[s]]) == s
+//@   ensures (forall i int :: 0 <= i && i < len(values) ==> !typeis(values[i], string)) ==> len(r.variables) == 0
+//@   loop 1
+//@     invariant 0 <= rangeindex+1 && rangeindex+1 <= len(values) && len(nodeValues) == rangeindex+1 && fresh(nodeValues) && fresh(nodeVariables)
+//@     invariant forall k int :: 0 <= k && k <= rangeindex ==> (isint(values[k]) && nodeValues[k] == ival(values[k])) || (typeis(values[k], string) && nodeValues[k] == 0 && has(nodeVariables, sval(values[k])) && nodeVariables[sval(values[k])] == k)
+//@     invariant forall s string :: has(nodeVariables, s) ==> 0 <= nodeVariables[s] && nodeVariables[s] <= rangeindex && typeis(values[nodeVariables[s]], string) && sval(values[nodeVariables[s]]) == s
+//@     invariant (forall k int :: 0 <= k && k <= rangeindex ==> !typeis(values[k], string)) ==> len(nodeVariables) == 0
+
+// ---------------------------------------------------------------------------------------------
+// BinaryNode factory and rep check
+
+//@ type BinaryNode invariant forall s string :: has(self.variables, s) ==> 0 <= self.variables[s] && self.variables[s] < len(self.values) && self.values[self.variables[s]] == 0 && re_match(specVarNamePattern(), s)
+//@   invariant forall s string, t string :: has(self.variables, s) && has(self.variables, t) && s != t ==> self.variables[s] != self.variables[t]
+
+//@ func (*BinaryNode).checkRep
+//@   establishes
+//@   property C12 C13
+//@   panics_if exists i int :: 0 <= i && i < len(node.values) && !(0 <= node.values[i] && node.values[i] < 256)
+//@   panics_only_if (exists s string :: has(node.variables, s)) || (exists i int :: 0 <= i && i < len(node.values) && !(0 <= node.values[i] && node.values[i] < 256))
+//@   ensures forall i int :: 0 <= i && i < len(node.values) ==> 0 <= node.values[i] && node.values[i] < 256
+//@   ensures forall s string :: has(node.variables, s) ==> 0 <= node.variables[s] && node.variables[s] < len(node.values) && node.values[node.variables[s]] == 0 && re_match(specVarNamePattern(), s)
+//@   ensures forall s string, t string :: has(node.variables, s) && has(node.variables, t) && s != t ==> node.variables[s] != node.variables[t]
+//@   loop 1
+//@     invariant 0 <= rangeindex+1 && rangeindex+1 <= len(node.values)
+//@     invariant forall k int :: 0 <= k && k <= rangeindex ==> 0 <= node.values[k] && node.values[k] < 256
+//@   loop 2
+//@     invariant forall k int :: 0 <= k && k < len(node.values) ==> 0 <= node.values[k] && node.values[k] < 256
+//@     invariant forall s string :: has(itervisited, s) ==> has(node.variables, s) && 0 <= node.variables[s] && node.variables[s] < len(node.values) && node.values[node.variables[s]] == 0 && re_match(specVarNamePattern(), s) && has(visited, node.variables[s])
+//@     invariant forall s string, t string :: has(itervisited, s) && has(itervisited, t) && s != t ==> node.variables[s] != node.variables[t]
+//@     invariant fresh(visited)
+
+//@ func NewBinaryNode
+//@   property C01 C12 C13 C09
+//@   allocates_assumed 32*len(values) + 512
+//@   allocates_on_panic 32*len(values) + 512
+//@   let r = cast(result, *BinaryNode)
+//@   panics_if len(values) > 16777215
+//@   panics_if exists i int :: 0 <= i && i < len(values) && !typeis(values[i], int) && !typeis(values[i], string)
+//@   panics_if exists i int :: 0 <= i && i < len(values) && typeis(values[i], int) && !(0 <= ival(values[i]) && ival(values[i]) < 256)
+//@   panics_if exists i int :: 0 <= i && i < len(values) && typeis(values[i], string) && hasprefix(sval(values[i]), "0b") && !parse_ok(sval(values[i]), 0, 0, 1)
+//@   panics_only_if len(values) > 16777215 || (exists i int :: 0 <= i && i < len(values) && !(typeis(values[i], int) && 0 <= ival(values[i]) && ival(values[i]) < 256))
+//@   ensures typeis(result, *BinaryNode) && fresh(result) && len(r.values) == len(values)
+//@   ensures forall i int :: 0 <= i && i < len(values) ==> (typeis(values[i], int) && r.values[i] == ival(values[i])) || (typeis(values[i], string) && hasprefix(sval(values[i]), "0b") && parse_ok(sval(values[i]), 0, 0, 1) && r.values[i] == parse_val(sval(values[i]), 0, 0, 1)) || (typeis(values[i], string) && !hasprefix(sval(values[i]), "0b") && r.values[i] == 0 && has(r.variables, sval(values[i])) && r.variables[sval(values[i])] == i)
+//@   ensures (forall i int :: 0 <= i && i < len(values) ==> !typeis(values[i], string)) ==> len(r.variables) == 0
+//@   loop 1
+//@     invariant 0 <= rangeindex+1 && rangeindex+1 <= len(values) && len(nodeValues) == rangeindex+1 && fresh(nodeValues) && fresh(nodeVariables)
+//@     invariant forall k int :: 0 <= k && k <= rangeindex ==> (typeis(values[k], int) && nodeValues[k] == ival(values[k])) || (typeis(values[k], string) && hasprefix(sval(values[k]), "0b") && parse_ok(sval(values[k]), 0, 0, 1) && nodeValues[k] == parse_val(sval(values[k]), 0, 0, 1)) || (typeis(values[k], string) && !hasprefix(sval(values[k]), "0b") && nodeValues[k] == 0 && has(nodeVariables, sval(values[k])) && nodeVariables[sval(values[k])] == k)
+//@     invariant forall s string :: has(nodeVariables, s) ==> 0 <= nodeVariables[s] && nodeVariables[s] <= rangeindex && typeis(values[nodeVariables[s]], string) && sval(values[nodeVariables[s]]) == s
+//@     invariant (forall k int :: 0 <= k && k <= rangeindex ==> !typeis(values[k], string)) ==> len(nodeVariables) == 0
+
+// ---------------------------------------------------------------------------------------------
+// BooleanNode factory and rep check
+
+//@ type BooleanNode invariant forall s string :: has(self.variables, s) ==> 0 <= self.variables[s] && self.variables[s] < len(self.values) && !self.values[self.variables[s]] && re_match(specVarNamePattern(), s)
+//@   invariant forall s string, t string :: has(self.variables, s) && has(self.variables, t) && s != t ==> self.variables[s] != self.variables[t]
+
+//@ func (*BooleanNode).checkRep
+//@   establishes
+//@   property C12 C13
+//@   panics_only_if exists s string :: has(node.variables, s)
+//@   ensures forall s string :: has(node.variables, s) ==> 0 <= node.variables[s] && node.variables[s] < len(node.values) && !node.values[node.variables[s]] && re_match(specVarNamePattern(), s)
+//@   ensures forall s string, t string :: has(node.variables, s) && has(node.variables, t) && s != t ==> node.variables[s] != node.variables[t]
+//@   loop 1
+//@     invariant forall s string :: has(itervisited, s) ==> has(node.variables, s) && 0 <= node.variables[s] && node.variables[s] < len(node.values) && !node.values[node.variables[s]] && re_match(specVarNamePattern(), s) && has(visited, node.variables[s])
+//@     invariant forall s string, t string :: has(itervisited, s) && has(itervisited, t) && s != t ==> node.variables[s] != node.variables[t]
+//@     invariant fresh(visited)
+
+//@ func NewBooleanNode
+//@   property C01 C12 C13 C09
+//@   allocates_assumed 32*len(values) + 512
+//@   allocates_on_panic 32*len(values) + 512
+//@   let r = cast(result, *BooleanNode)
+//@   panics_if len(values) > 16777215
+//@   panics_if exists i int :: 0 <= i && i < len(values) && !typeis(values[i], bool) && !typeis(values[i], string)
+//@   panics_only_if len(values) > 16777215 || (exists i int :: 0 <= i && i < len(values) && !typeis(values[i], bool))
+//@   ensures typeis(result, *BooleanNode) && fresh(result) && len(r.values) == len(values)
+//@   ensures forall i int :: 0 <= i && i < len(values) ==> (typeis(values[i], bool) && r.values[i] == bval(values[i])) || (typeis(values[i], string) && !r.values[i] && has(r.variables, sval(values[i])) && r.variables[sval(values[i])] == i)
+//@   ensures (forall i int :: 0 <= i && i < len(values) ==> !typeis(values[i], string)) ==> len(r.variables) == 0
+//@   loop 1
+//@     invariant 0 <= rangeindex+1 && rangeindex+1 <= len(values) && len(nodeValues) == rangeindex+1 && fresh(nodeValues) && fresh(nodeVariables)
+//@     invariant forall k int :: 0 <= k && k <= rangeindex ==> (typeis(values[k], bool) && nodeValues[k] == bval(values[k])) || (typeis(values[k], string) && !nodeValues[k] && has(nodeVariables, sval(values[k])) && nodeVariables[sval(values[k])] == k)
+//@     invariant forall s string :: has(nodeVariables, s) ==> 0 <= nodeVariables[s] && nodeVariables[s] <= rangeindex && typeis(values[nodeVariables[s]], string) && sval(values[nodeVariables[s]]) == s
+//@     invariant (forall k int :: 0 <= k && k <= rangeindex ==> !typeis(values[k], string)) ==> len(nodeVariables) == 0
+
+// ---------------------------------------------------------------------------------------------
+// ASCIINode factories and rep check
+
+//@ func (*ASCIINode).checkRep
+//@   establishes
+//@   property C12 C13 C15
+//@   let valOK = node.variable.name == "" && node.variable.minLength == 0 && node.variable.maxLength == 0 && (forall i int :: 0 <= i && i < len(node.value) ==> node.value[i] < 128)
+//@   let varOK = node.value == "" && re_match(specVarNamePattern(), node.variable.name) && node.variable.minLength >= 0 && node.variable.maxLength >= -1 && (node.variable.maxLength == -1 || node.variable.minLength <= node.variable.maxLength)
+//@   panics_iff (node.isValue && !valOK) || (!node.isValue && !varOK)
+//@   loop 1
+//@     invariant node.isValue && node.variable.name == "" && node.variable.minLength == 0 && node.variable.maxLength == 0
+//@     invariant 0 <= iterpos && iterpos <= len(node.value)
+//@     invariant forall p int :: 0 <= p && p < iterpos ==> node.value[p] < 128
+
+//@ func NewASCIINode
+//@   property C01 C12 C13 C09
+//@   allocates_assumed 32*len(str) + 512
+//@   allocates_on_panic 32*len(str) + 512
+//@   let r = cast(result, *ASCIINode)
+//@   panics_iff len(str) > 16777215 || (exists i int :: 0 <= i && i < len(str) && str[i] >= 128)
+//@   ensures typeis(result, *ASCIINode) && fresh(result) && r.isValue && r.value == str
+
+//@ func NewASCIINodeVariable
+//@   property C12 C15
+//@   let r = cast(result, *ASCIINode)
+//@   panics_iff !(re_match(specVarNamePattern(), name) && minLength >= 0 && maxLength >= -1 && (maxLength == -1 || minLength <= maxLength))
+//@   ensures typeis(result, *ASCIINode) && fresh(result) && !r.isValue && r.value == ""
+//@   ensures r.variable.name == name && r.variable.minLength == minLength && r.variable.maxLength == maxLength
+
+// ---------------------------------------------------------------------------------------------
+// FloatNode factory and rep check
+
+//@ type FloatNode invariant forall i int :: 0 <= i && i < len(self.values) ==> !isnan(self.values[i]) && !isinf(self.values[i]) && fneg(ite(self.byteSize == 4, maxfloat32(), maxfloat64())) <= self.values[i] && self.values[i] <= ite(self.byteSize == 4, maxfloat32(), maxfloat64())
+//@   invariant forall s string :: has(self.variables, s) ==> 0 <= self.variables[s] && self.variables[s] < len(self.values) && self.values[self.variables[s]] == 0 && re_match(specVarNamePattern(), s)
+//@   invariant forall s string, t string :: has(self.variables, s) && has(self.variables, t) && s != t ==> self.variables[s] != self.variables[t]
+
+//@ func (*FloatNode).checkRep
+//@   establishes
+//@   property C12 C13
+//@   let okW = specIsFloatW(node.byteSize)
+//@   let mx = ite(node.byteSize == 4, maxfloat32(), maxfloat64())
+//@   panics_if !okW
+//@   panics_if okW && (exists i int :: 0 <= i && i < len(node.values) && !(!isnan(node.values[i]) && !isinf(node.values[i]) && fneg(mx) <= node.values[i] && node.values[i] <= mx))
+//@   panics_only_if !okW || (exists s string :: has(node.variables, s)) || (exists i int :: 0 <= i && i < len(node.values) && !(!isnan(node.values[i]) && !isinf(node.values[i]) && fneg(mx) <= node.values[i] && node.values[i] <= mx))
+//@   ensures forall i int :: 0 <= i && i < len(node.values) ==> !isnan(node.values[i]) && !isinf(node.values[i]) && fneg(mx) <= node.values[i] && node.values[i] <= mx
+//@   ensures forall s string :: has(node.variables, s) ==> 0 <= node.variables[s] && node.variables[s] < len(node.values) && node.values[node.variables[s]] == 0 && re_match(specVarNamePattern(), s)
+//@   ensures forall s string, t string :: has(node.variables, s) && has(node.variables, t) && s != t ==> node.variables[s] != node.variables[t]
+//@   loop 1
+//@     invariant okW && 0 <= rangeindex+1 && rangeindex+1 <= len(node.values) && max == mx
+//@     invariant forall k int :: 0 <= k && k <= rangeindex ==> !isnan(node.values[k]) && !isinf(node.values[k]) && fneg(mx) <= node.values[k] && node.values[k] <= mx
+//@   loop 2
+//@     invariant okW && forall k int :: 0 <= k && k < len(node.values) ==> !isnan(node.values[k]) && !isinf(node.values[k]) && fneg(mx) <= node.values[k] && node.values[k] <= mx
+//@     invariant forall s string :: has(itervisited, s) ==> has(node.variables, s) && 0 <= node.variables[s] && node.variables[s] < len(node.values) && node.values[node.variables[s]] == 0 && re_match(specVarNamePattern(), s) && has(visited, node.variables[s])
+//@     invariant forall s string, t string :: has(itervisited, s) && has(itervisited, t) && s != t ==> node.variables[s] != node.variables[t]
+//@     invariant fresh(visited)
+
+//@ func NewFloatNode
+//@   property C01 C12 C13 C09
+//@   allocates_assumed 32*len(values) + 512
+//@   allocates_on_panic 32*len(values) + 512
+//@   let okW = specIsFloatW(byteSize)
+//@   let mx = ite(byteSize == 4, maxfloat32(), maxfloat64())
+//@   let r = cast(result, *FloatNode)
+//@   panics_if !okW
+//@   panics_if okW && len(values)*byteSize > 16777215
+//@   panics_if exists i int :: 0 <= i && i < len(values) && !isint(values[i]) && !isfloat(values[i]) && !typeis(values[i], string)
+//@   panics_if okW && (exists i int :: 0 <= i && i < len(values) && isfloat(values[i]) && !(!isnan(fval(values[i])) && !isinf(fval(values[i])) && fneg(mx) <= fval(values[i]) && fval(values[i]) <= mx))
+//@   ensures typeis(result, *FloatNode) && fresh(result) && r.byteSize == byteSize && len(r.values) == len(values)
+//@   ensures forall i int :: 0 <= i && i < len(values) ==> (isint(values[i]) && r.values[i] == float64(ival(values[i]))) || (isfloat(values[i]) && r.values[i] == fval(values[i])) || (typeis(values[i], string) && r.values[i] == 0 && has(r.variables, sval(values[i])) && r.variables[sval(values[i])] == i)
+//@   panics_only_if !okW || len(values)*byteSize > 16777215 || (exists i int :: 0 <= i && i < len(values) && !(isfloat(values[i]) && !isnan(fval(values[i])) && !isinf(fval(values[i])) && fneg(mx) <= fval(values[i]) && fval(values[i]) <= mx))
+//@   ensures (forall i int :: 0 <= i && i < len(values) ==> !typeis(values[i], string)) ==> len(r.variables) == 0
+//@   loop 1
+//@     invariant 0 <= rangeindex+1 && rangeindex+1 <= len(values) && len(nodeValues) == rangeindex+1 && fresh(nodeValues) && fresh(nodeVariables)
+//@     invariant forall k int :: 0 <= k && k <= rangeindex ==> (isint(values[k]) && nodeValues[k] == float64(ival(values[k]))) || (isfloat(values[k]) && nodeValues[k] == fval(values[k])) || (typeis(values[k], string) && nodeValues[k] == 0 && has(nodeVariables, sval(values[k])) && nodeVariables[sval(values[k])] == k)
+//@     invariant forall s string :: has(nodeVariables, s) ==> 0 <= nodeVariables[s] && nodeVariables[s] <= rangeindex && typeis(values[nodeVariables[s]], string) && sval(values[nodeVariables[s]]) == s
+//@     invariant (forall k int :: 0 <= k && k <= rangeindex ==> !typeis(values[k], string)) ==> len(nodeVariables) == 0
+
+// ---------------------------------------------------------------------------------------------
+// ListNode factory, rep check, variable listing
+
+//@ type ListNode invariant len(self.values) <= 16777215
+//@   invariant forall i int :: 0 <= i && i < len(self.values) ==> typeis(self.values[i], ItemNode)
+//@   invariant forall s string :: has(self.variables, s) ==> 0 <= self.variables[s] && self.variables[s] < len(self.values) && typeis(self.values[self.variables[s]], emptyItemNode)
+//@   invariant forall s string :: has(self.variables, s) ==> re_match(specVarNamePattern(), s) || (re_match(specEllipsisPattern(), s) && self.variables[s] != 0)
+//@   invariant forall s string, t string :: has(self.variables, s) && has(self.variables, t) && s != t ==> self.variables[s] != self.variables[t]
+//@   invariant forall s string, t string :: has(self.variables, s) && has(self.variables, t) && !re_match(specVarNamePattern(), s) && !re_match(specVarNamePattern(), t) ==> s == t
+
+//@ func (*ListNode).variablesSwapKeyValue
+//@   inline
+//@   loop 1
+//@     invariant fresh(result)
+
+//@ func (*ListNode).Variables
+//@   property C16 C11 C17
+//@   ensures fresh(result)
+//@   loop 1
+//@     invariant fresh(result) && 0 <= rangeindex+1 && rangeindex+1 <= len(node.values)
+
+//@ func (*ListNode).checkRep
+//@   establishes
+//@   property C12 C16
+//@   maypanic
+//@   requires forall i int :: 0 <= i && i < len(node.values) ==> typeis(node.values[i], ItemNode)
+//@   ensures forall s string :: has(node.variables, s) ==> 0 <= node.variables[s] && node.variables[s] < len(node.values) && typeis(node.values[node.variables[s]], emptyItemNode)
+//@   ensures forall s string :: has(node.variables, s) ==> re_match(specVarNamePattern(), s) || (re_match(specEllipsisPattern(), s) && node.variables[s] != 0)
+//@   ensures forall s string, t string :: has(node.variables, s) && has(node.variables, t) && s != t ==> node.variables[s] != node.variables[t]
+//@   ensures forall s string, t string :: has(node.variables, s) && has(node.variables, t) && !re_match(specVarNamePattern(), s) && !re_match(specVarNamePattern(), t) ==> s == t
+//@   loop 1
+//@     invariant fresh(visitedIndex)
+//@     invariant forall s string :: has(itervisited, s) ==> has(node.variables, s) && 0 <= node.variables[s] && node.variables[s] < len(node.values) && typeis(node.values[node.variables[s]], emptyItemNode) && has(visitedIndex, node.variables[s])
+//@     invariant forall s string :: has(itervisited, s) ==> re_match(specVarNamePattern(), s) || (re_match(specEllipsisPattern(), s) && node.variables[s] != 0)
+//@     invariant forall s string, t string :: has(itervisited, s) && has(itervisited, t) && s != t ==> node.variables[s] != node.variables[t]
+//@     invariant forall s string, t string :: has(itervisited, s) && has(itervisited, t) && !re_match(specVarNamePattern(), s) && !re_match(specVarNamePattern(), t) ==> s == t
+//@     invariant (exists s string :: has(itervisited, s) && !re_match(specVarNamePattern(), s)) ==> ellipsisExist
+//@   loop 2
+//@     invariant fresh(foundVarName)
+
+//@ func NewListNode
+//@   property C01 C12 C13 C09
+//@   allocates_assumed 32*len(values) + 512
+//@   allocates_on_panic 32*len(values) + 512
+//@   maypanic
+//@   let r = cast(result, *ListNode)
+//@   panics_if len(values) > 16777215
+//@   panics_if exists i int :: 0 <= i && i < len(values) && !typeis(values[i], ItemNode) && !typeis(values[i], string)
+//@   ensures typeis(result, *ListNode) && fresh(result) && len(r.values) == len(values)
+//@   ensures forall i int :: 0 <= i && i < len(values) ==> (typeis(values[i], ItemNode) && r.values[i] == values[i]) || (typeis(values[i], string) && typeis(r.values[i], emptyItemNode) && has(r.variables, sval(values[i])) && r.variables[sval(values[i])] == i)
+//@   ensures forall s string :: has(r.variables, s) ==> 0 <= r.variables[s] && r.variables[s] < len(values) && typeis(values[r.variables[s]], string) && sval(values[r.variables[s]]) == s
+//@   ensures (forall i int :: 0 <= i && i < len(values) ==> !typeis(values[i], string)) ==> len(r.variables) == 0
+//@   loop 1
+//@     invariant 0 <= rangeindex+1 && rangeindex+1 <= len(values) && len(nodeValues) == rangeindex+1 && fresh(nodeValues) && fresh(nodeVariables)
+//@     invariant forall k int :: 0 <= k && k <= rangeindex ==> typeis(nodeValues[k], ItemNode)
+//@     invariant forall k int :: 0 <= k && k <= rangeindex ==> (typeis(values[k], ItemNode) && nodeValues[k] == values[k]) || (typeis(values[k], string) && typeis(nodeValues[k], emptyItemNode) && has(nodeVariables, sval(values[k])) && nodeVariables[sval(values[k])] == k)
+//@     invariant forall s string :: has(nodeVariables, s) ==> 0 <= nodeVariables[s] && nodeVariables[s] <= rangeindex && typeis(values[nodeVariables[s]], string) && sval(values[nodeVariables[s]]) == s
+//@     invariant (forall k int :: 0 <= k && k <= rangeindex ==> !typeis(values[k], string)) ==> len(nodeVariables) == 0
+
+//@ iface ItemNode.Variables
+//@   property C16 C11
+//@   ensures fresh(result)
+//@   defines len(result) == nvars(recv)
+
+//@ iface ItemNode.ToBytes
+//@   property C02 C11
+//@   ensures fresh(result)
+//@   defines len(result) == enc_len(recv)
+//@   defines forall k int :: 0 <= k && k < len(result) ==> result[k] == enc_at(recv, k)
+
+//@ iface ItemNode.Size
+//@   property C16
+//@   ensures result >= -1
+
+//@ func NewHSMSDataMessage
+//@   property C12 C11 C03 C01
+//@   allocates_assumed 512
+//@   allocates_on_panic 512
+//@   panics_if !(waitBit == 0 || waitBit == 1)
+//@   panics_if sessionID == -1
+//@   panics_if nvars(dataItem) != 0
+//@   panics_if has_space_rune(name) || !specMsgFieldsOK(stream, function, waitBit, sessionID, 4, direction)
+//@   panics_only_if !(waitBit == 0 || waitBit == 1) || sessionID == -1 || dataItem == nil || nvars(dataItem) != 0 || has_space_rune(name) || !specMsgFieldsOK(stream, function, waitBit, sessionID, 4, direction)
+//@   ensures fresh(result) && result.name == name && result.stream == stream && result.function == function
+//@   ensures result.waitBit == waitBit && result.direction == direction && result.dataItem == dataItem && result.sessionID == sessionID
+//@   ensures len(result.systemBytes) == 4 && fresh(result.systemBytes)
+//@   ensures forall k int :: 0 <= k && k < 4 && k < len(systemBytes) ==> result.systemBytes[k] == systemBytes[k]
+//@   ensures forall k int :: 0 <= k && k < 4 && k >= len(systemBytes) ==> result.systemBytes[k] == 0
+//@   loop 1
+//@     invariant 0 <= rangeindex+1 && rangeindex+1 <= len(systemBytes) && rangeindex+1 <= 4
+//@     invariant len(systemBytesCopy) == 4 && fresh(systemBytesCopy)
+//@     invariant forall k int :: 0 <= k && k <= rangeindex ==> systemBytesCopy[k] == systemBytes[k]
+//@     invariant forall k int :: rangeindex < k && k < 4 ==> systemBytesCopy[k] == 0
+
+// ---------------------------------------------------------------------------------------------
+// Message framing (SEMI E37) and list encoding
+
+//@ func (*DataMessage).ToBytes
+//@   property C01 C02 C11 C16
+//@   let complete = node.waitBit != 2 && nvars(node.dataItem) == 0 && node.sessionID != -1
+//@   let n = enc_len(node.dataItem)
+//@   requires node.dataItem != nil
+//@   ensures fresh(result)
+//@   ensures !complete ==> len(result) == 0
+//@   ensures complete ==> len(result) == 14 + n
+//@   ensures complete && n + 10 < 4294967296 ==> result[0] == fmod(fdiv(n+10, 16777216), 256)
+//@   ensures complete && n + 10 < 4294967296 ==> result[1] == fmod(fdiv(n+10, 65536), 256)
+//@   ensures complete && n + 10 < 4294967296 ==> result[2] == fmod(fdiv(n+10, 256), 256)
+//@   ensures complete && n + 10 < 4294967296 ==> result[3] == fmod(n+10, 256)
+//@   ensures complete ==> result[4] == fdiv(node.sessionID, 256) && result[5] == fmod(node.sessionID, 256)
+//@   ensures complete ==> result[6] == node.stream + ite(node.waitBit == 1, 128, 0) && result[7] == node.function && result[8] == 0 && result[9] == 0
+//@   ensures complete ==> forall k int :: 0 <= k && k < 4 ==> result[10+k] == node.systemBytes[k]
+//@   ensures complete ==> forall k int :: 0 <= k && k < n ==> result[14+k] == enc_at(node.dataItem, k)
+
+//@ type ListNode view list_off(box(self, *ListNode), 0) == 1 + specNLen(len(self.values))
+//@   view forall i int :: 0 <= i && i < len(self.values) ==> list_off(box(self, *ListNode), i+1) == list_off(box(self, *ListNode), i) + enc_len(self.values[i])
+
+//@ func (*ListNode).ToBytes
+//@   property C02 C16 C01 C13
+//@   let n = len(node.values)
+//@   let h = 1 + specNLen(n)
+//@   let me = box(node, *ListNode)
+//@   ensures fresh(result)
+//@   ensures len(node.variables) != 0 ==> len(result) == 0
+//@   ensures (exists i int :: 0 <= i && i < n && enc_len(node.values[i]) == 0) ==> len(result) == 0
+//@   ensures len(node.variables) == 0 && (forall i int :: 0 <= i && i < n ==> enc_len(node.values[i]) != 0) ==> len(result) == list_off(me, n)
+//@   ensures len(result) != 0 ==> result[0] == specFormatCode("list")*4 + specNLen(n)
+//@   ensures len(result) != 0 ==> forall k int :: 0 <= k && k < h-1 ==> result[1+k] == specLenByte(n, h-1, k)
+//@   loop 1
+//@     invariant 0 <= rangeindex+1 && rangeindex+1 <= n && len(node.variables) == 0
+//@     invariant fresh(result) && len(result) == list_off(me, rangeindex+1) && h <= len(result)
+//@     invariant forall i int :: 0 <= i && i <= rangeindex ==> enc_len(node.values[i]) != 0
+//@     invariant forall i int :: 0 <= i && i <= rangeindex ==> h <= list_off(me, i) && list_off(me, i) + enc_len(node.values[i]) <= len(result)
+//@     invariant result[0] == specFormatCode("list")*4 + specNLen(n)
+//@     invariant forall k int :: 0 <= k && k < h-1 ==> result[1+k] == specLenByte(n, h-1, k)
+
+// ---------------------------------------------------------------------------------------------
+// FillVariables: pure substitution (C09)
+
+//@ func (*IntNode).FillVariables
+//@   property C09 C11 C12
+//@   maypanic
+//@   let r = cast(result, *IntNode)
+//@   let n = len(node.values)
+//@   ensures !(exists s string :: has(node.variables, s) && has(values, s)) ==> result == box(node, *IntNode)
+//@   ensures (exists s string :: has(node.variables, s) && has(values, s)) ==> typeis(result, *IntNode) && fresh(result) && r.byteSize == node.byteSize && len(r.values) == n
+//@   ensures (exists s string :: has(node.variables, s) && has(values, s)) ==> forall s string :: has(node.variables, s) && has(values, s) && isint(values[s]) ==> r.values[node.variables[s]] == ival(values[s])
+//@   ensures (exists s string :: has(node.variables, s) && has(values, s)) ==> forall s string :: has(node.variables, s) && !has(values, s) ==> has(r.variables, s) && r.variables[s] == node.variables[s] && r.values[node.variables[s]] == 0
+//@   ensures (exists s string :: has(node.variables, s) && has(values, s)) ==> forall p int :: 0 <= p && p < n && (forall s string :: has(node.variables, s) ==> node.variables[s] != p) ==> r.values[p] == node.values[p]
+//@   loop 1
+//@     invariant 0 <= rangeindex+1 && rangeindex+1 <= n && len(nodeValues) == rangeindex+1 && fresh(nodeValues)
+//@     invariant forall k int :: 0 <= k && k <= rangeindex ==> typeis(nodeValues[k], int64) && ival(nodeValues[k]) == node.values[k]
+//@   loop 2
+//@     invariant len(nodeValues) == n && fresh(nodeValues)
+//@     invariant !createNew ==> forall s string :: has(itervisited, s) ==> !has(values, s)
+//@     invariant createNew ==> exists s string :: has(node.variables, s) && has(values, s)
+//@     invariant forall s string :: has(itervisited, s) ==> has(node.variables, s)
+//@     invariant forall s string :: has(itervisited, s) && has(values, s) ==> nodeValues[node.variables[s]] == values[s]
+//@     invariant forall s string :: has(itervisited, s) && !has(values, s) ==> typeis(nodeValues[node.variables[s]], string) && sval(nodeValues[node.variables[s]]) == s
+//@     invariant forall p int :: 0 <= p && p < n && (forall s string :: has(itervisited, s) ==> node.variables[s] != p) ==> typeis(nodeValues[p], int64) && ival(nodeValues[p]) == node.values[p]
+
+//@ func (*UintNode).FillVariables
+//@   property C09 C11 C12
+//@   maypanic
+//@   let r = cast(result, *UintNode)
+//@   let n = len(node.values)
+//@   ensures !(exists s string :: has(node.variables, s) && has(values, s)) ==> result == box(node, *UintNode)
+//@   ensures (exists s string :: has(node.variables, s) && has(values, s)) ==> typeis(result, *UintNode) && fresh(result) && r.byteSize == node.byteSize && len(r.values) == n
+//@   ensures (exists s string :: has(node.variables, s) && has(values, s)) ==> forall s string :: has(node.variables, s) && has(values, s) && isint(values[s]) ==> r.values[node.variables[s]] == ival(values[s])
+//@   ensures (exists s string :: has(node.variables, s) && has(values, s)) ==> forall s string :: has(node.variables, s) && !has(values, s) ==> has(r.variables, s) && r.variables[s] == node.variables[s] && r.values[node.variables[s]] == 0
+//@   ensures (exists s string :: has(node.variables, s) && has(values, s)) ==> forall p int :: 0 <= p && p < n && (forall s string :: has(node.variables, s) ==> node.variables[s] != p) ==> r.values[p] == node.values[p]
+//@   loop 1
+//@     invariant 0 <= rangeindex+1 && rangeindex+1 <= n && len(nodeValues) == rangeindex+1 && fresh(nodeValues)
+//@     invariant forall k int :: 0 <= k && k <= rangeindex ==> typeis(nodeValues[k], uint64) && ival(nodeValues[k]) == node.values[k]
+//@   loop 2
+//@     invariant len(nodeValues) == n && fresh(nodeValues)
+//@     invariant !createNew ==> forall s string :: has(itervisited, s) ==> !has(values, s)
+//@     invariant createNew ==> exists s string :: has(node.variables, s) && has(values, s)
+//@     invariant forall s string :: has(itervisited, s) ==> has(node.variables, s)
+//@     invariant forall s string :: has(itervisited, s) && has(values, s) ==> nodeValues[node.variables[s]] == values[s]
+//@     invariant forall s string :: has(itervisited, s) && !has(values, s) ==> typeis(nodeValues[node.variables[s]], string) && sval(nodeValues[node.variables[s]]) == s
+//@     invariant forall p int :: 0 <= p && p < n && (forall s string :: has(itervisited, s) ==> node.variables[s] != p) ==> typeis(nodeValues[p], uint64) && ival(nodeValues[p]) == node.values[p]
+
+//@ func (*FloatNode).FillVariables
+//@   property C09 C11 C12
+//@   maypanic
+//@   let r = cast(result, *FloatNode)
+//@   let n = len(node.values)
+//@   ensures !(exists s string :: has(node.variables, s) && has(values, s)) ==> result == box(node, *FloatNode)
+//@   ensures (exists s string :: has(node.variables, s) && has(values, s)) ==> typeis(result, *FloatNode) && fresh(result) && r.byteSize == node.byteSize && len(r.values) == n
+//@   ensures (exists s string :: has(node.variables, s) && has(values, s)) ==> forall s string :: has(node.variables, s) && has(values, s) && isfloat(values[s]) ==> r.values[node.variables[s]] == fval(values[s])
+//@   ensures (exists s string :: has(node.variables, s) && has(values, s)) ==> forall s string :: has(node.variables, s) && !has(values, s) ==> has(r.variables, s) && r.variables[s] == node.variables[s] && r.values[node.variables[s]] == 0
+//@   ensures (exists s string :: has(node.variables, s) && has(values, s)) ==> forall p int :: 0 <= p && p < n && (forall s string :: has(node.variables, s) ==> node.variables[s] != p) ==> r.values[p] == node.values[p]
+//@   loop 1
+//@     invariant 0 <= rangeindex+1 && rangeindex+1 <= n && len(nodeValues) == rangeindex+1 && fresh(nodeValues)
+//@     invariant forall k int :: 0 <= k && k <= rangeindex ==> typeis(nodeValues[k], float64) && fval(nodeValues[k]) == node.values[k]
+//@   loop 2
+//@     invariant len(nodeValues) == n && fresh(nodeValues)
+//@     invariant !createNew ==> forall s string :: has(itervisited, s) ==> !has(values, s)
+//@     invariant createNew ==> exists s string :: has(node.variables, s) && has(values, s)
+//@     invariant forall s string :: has(itervisited, s) ==> has(node.variables, s)
+//@     invariant forall s string :: has(itervisited, s) && has(values, s) ==> nodeValues[node.variables[s]] == values[s]
+//@     invariant forall s string :: has(itervisited, s) && !has(values, s) ==> typeis(nodeValues[node.variables[s]], string) && sval(nodeValues[node.variables[s]]) == s
+//@     invariant forall p int :: 0 <= p && p < n && (forall s string :: has(itervisited, s) ==> node.variables[s] != p) ==> typeis(nodeValues[p], float64) && fval(nodeValues[p]) == node.values[p]
+
+//@ func (*BinaryNode).FillVariables
+//@   property C09 C11 C12
+//@   maypanic
+//@   let r = cast(result, *BinaryNode)
+//@   let n = len(node.values)
+//@   ensures !(exists s string :: has(node.variables, s) && has(values, s)) ==> result == box(node, *BinaryNode)
+//@   ensures (exists s string :: has(node.variables, s) && has(values, s)) ==> typeis(result, *BinaryNode) && fresh(result) && len(r.values) == n
+//@   ensures (exists s string :: has(node.variables, s) && has(values, s)) ==> forall s string :: has(node.variables, s) && has(values, s) && typeis(values[s], int) ==> r.values[node.variables[s]] == ival(values[s])
+//@   ensures (exists s string :: has(node.variables, s) && has(values, s)) ==> forall s string :: has(node.variables, s) && !has(values, s) ==> has(r.variables, s) && r.variables[s] == node.variables[s] && r.values[node.variables[s]] == 0
+//@   ensures (exists s string :: has(node.variables, s) && has(values, s)) ==> forall p int :: 0 <= p && p < n && (forall s string :: has(node.variables, s) ==> node.variables[s] != p) ==> r.values[p] == node.values[p]
+//@   loop 1
+//@     invariant 0 <= rangeindex+1 && rangeindex+1 <= n && len(nodeValues) == rangeindex+1 && fresh(nodeValues)
+//@     invariant forall k int :: 0 <= k && k <= rangeindex ==> typeis(nodeValues[k], int) && ival(nodeValues[k]) == node.values[k]
+//@   loop 2
+//@     invariant len(nodeValues) == n && fresh(nodeValues)
+//@     invariant !createNew ==> forall s string :: has(itervisited, s) ==> !has(values, s)
+//@     invariant createNew ==> exists s string :: has(node.variables, s) && has(values, s)
+//@     invariant forall s string :: has(itervisited, s) ==> has(node.variables, s)
+//@     invariant forall s string :: has(itervisited, s) && has(values, s) ==> nodeValues[node.variables[s]] == values[s]
+//@     invariant forall s string :: has(itervisited, s) && !has(values, s) ==> typeis(nodeValues[node.variables[s]], string) && sval(nodeValues[node.variables[s]]) == s
+//@     invariant forall p int :: 0 <= p && p < n && (forall s string :: has(itervisited, s) ==> node.variables[s] != p) ==> typeis(nodeValues[p], int) && ival(nodeValues[p]) == node.values[p]
+
+//@ func (*BooleanNode).FillVariables
+//@   property C09 C11 C12
+//@   maypanic
+//@   let r = cast(result, *BooleanNode)
+//@   let n = len(node.values)
+//@   ensures !(exists s string :: has(node.variables, s) && has(values, s)) ==> result == box(node, *BooleanNode)
+//@   ensures (exists s string :: has(node.variables, s) && has(values, s)) ==> typeis(result, *BooleanNode) && fresh(result) && len(r.values) == n
+//@   ensures (exists s string :: has(node.variables, s) && has(values, s)) ==> forall s string :: has(node.variables, s) && has(values, s) && typeis(values[s], bool) ==> r.values[node.variables[s]] == bval(values[s])
+//@   ensures (exists s string :: has(node.variables, s) && has(values, s)) ==> forall s string :: has(node.variables, s) && !has(values, s) ==> has(r.variables, s) && r.variables[s] == node.variables[s] && !r.values[node.variables[s]]
+//@   ensures (exists s string :: has(node.variables, s) && has(values, s)) ==> forall p int :: 0 <= p && p < n && (forall s string :: has(node.variables, s) ==> node.variables[s] != p) ==> r.values[p] == node.values[p]
+//@   loop 1
+//@     invariant 0 <= rangeindex+1 && rangeindex+1 <= n && len(nodeValues) == rangeindex+1 && fresh(nodeValues)
+//@     invariant forall k int :: 0 <= k && k <= rangeindex ==> typeis(nodeValues[k], bool) && bval(nodeValues[k]) == node.values[k]
+//@   loop 2
+//@     invariant len(nodeValues) == n && fresh(nodeValues)
+//@     invariant !createNew ==> forall s string :: has(itervisited, s) ==> !has(values, s)
+//@     invariant createNew ==> exists s string :: has(node.variables, s) && has(values, s)
+//@     invariant forall s string :: has(itervisited, s) ==> has(node.variables, s)
+//@     invariant forall s string :: has(itervisited, s) && has(values, s) ==> nodeValues[node.variables[s]] == values[s]
+//@     invariant forall s string :: has(itervisited, s) && !has(values, s) ==> typeis(nodeValues[node.variables[s]], string) && sval(nodeValues[node.variables[s]]) == s
+//@     invariant forall p int :: 0 <= p && p < n && (forall s string :: has(itervisited, s) ==> node.variables[s] != p) ==> typeis(nodeValues[p], bool) && bval(nodeValues[p]) == node.values[p]
+
+//@ func (*ASCIINode).FillVariables
+//@   property C09 C15 C11 C12
+//@   let r = cast(result, *ASCIINode)
+//@   let v = values[node.variable.name]
+//@   let mentioned = !node.isValue && has(values, node.variable.name)
+//@   let fits = typeis(v, string) && node.variable.minLength <= len(sval(v)) && (node.variable.maxLength == -1 || len(sval(v)) <= node.variable.maxLength)
+//@   panics_if mentioned && !fits
+//@   panics_only_if mentioned && (!fits || len(sval(v)) > 16777215 || (exists i int :: 0 <= i && i < len(sval(v)) && sval(v)[i] >= 128))
+//@   ensures !mentioned ==> result == box(node, *ASCIINode)
+//@   ensures mentioned ==> typeis(result, *ASCIINode) && fresh(result) && r.isValue && r.value == sval(v)
+
+//@ func (*ASCIINode).Size
+//@   property C16 C15
+//@   ensures node.isValue ==> result == len(node.value)
+//@   ensures !node.isValue ==> result == -1
+
+//@ func (*ASCIINode).FillInStringLength
+//@   property C15
+//@   ensures node.isValue ==> min == -2 && max == -2
+//@   ensures !node.isValue ==> min == node.variable.minLength && max == node.variable.maxLength
+
+//@ func (*ASCIINode).Variables
+//@   property C16 C11
+//@   ensures fresh(result)
+//@   ensures node.isValue ==> len(result) == 0
+//@   ensures !node.isValue ==> len(result) == 1 && result[0] == node.variable.name
+
+//@ func (*DataMessage).FillVariables
+//@   property C18 C09 C11
+//@   maypanic
+//@   requires node.dataItem != nil
+//@   ensures fresh(result) && result.name == node.name && result.stream == node.stream && result.function == node.function
+//@   ensures result.waitBit == node.waitBit && result.direction == node.direction && result.sessionID == node.sessionID && result.systemBytes == node.systemBytes
+//@   ensures result.dataItem == fill_of(node.dataItem, ref(values))
+
+//@ iface ItemNode.FillVariables
+//@   property C09 C11
+//@   maypanic
+//@   defines result == fill_of(recv, ref(arg0))
+//@   ensures result != nil
+
+//@ func (*DataMessage).Variables
+//@   property C16 C11
+//@   requires node.dataItem != nil
+//@   ensures fresh(result) && len(result) == nvars(node.dataItem)
+
+//@ func getVariableNames
+//@   property C16
+//@   trusted
+//@   ensures fresh(result) && len(result) == len(variablePosition)
+//@   ensures forall i int :: 0 <= i && i < len(result) ==> has(variablePosition, result[i])
+//@   ensures forall i int, j int :: 0 <= i && i < j && j < len(result) ==> variablePosition[result[i]] < variablePosition[result[j]]
+
+//@ func (*IntNode).Variables
+//@   property C16 C11
+//@   ensures fresh(result) && len(result) == len(node.variables)
+//@   ensures forall i int :: 0 <= i && i < len(result) ==> has(node.variables, result[i])
+//@   ensures forall i int, j int :: 0 <= i && i < j && j < len(result) ==> node.variables[result[i]] < node.variables[result[j]]
+
+//@ func (*UintNode).Variables
+//@   property C16 C11
+//@   ensures fresh(result) && len(result) == len(node.variables)
+//@   ensures forall i int :: 0 <= i && i < len(result) ==> has(node.variables, result[i])
+//@   ensures forall i int, j int :: 0 <= i && i < j && j < len(result) ==> node.variables[result[i]] < node.variables[result[j]]
+
+//@ func (*FloatNode).Variables
+//@   property C16 C11
+//@   ensures fresh(result) && len(result) == len(node.variables)
+//@   ensures forall i int :: 0 <= i && i < len(result) ==> has(node.variables, result[i])
+//@   ensures forall i int, j int :: 0 <= i && i < j && j < len(result) ==> node.variables[result[i]] < node.variables[result[j]]
+
+//@ func (*BinaryNode).Variables
+//@   property C16 C11
+//@   ensures fresh(result) && len(result) == len(node.variables)
+//@   ensures forall i int :: 0 <= i && i < len(result) ==> has(node.variables, result[i])
+//@   ensures forall i int, j int :: 0 <= i && i < j && j < len(result) ==> node.variables[result[i]] < node.variables[result[j]]
+
+//@ func (*BooleanNode).Variables
+//@   property C16 C11
+//@   ensures fresh(result) && len(result) == len(node.variables)
+//@   ensures forall i int :: 0 <= i && i < len(result) ==> has(node.variables, result[i])
+//@   ensures forall i int, j int :: 0 <= i && i < j && j < len(result) ==> node.variables[result[i]] < node.variables[result[j]]
